@@ -161,6 +161,13 @@ func buildPool(p idPlan) []*accessory.Accessory {
 				}
 			}
 		}
+		if len(a.Services) > 0 && k%3 == 1 {
+			// an optional characteristic the application attaches to a service AFTER the service was added to its accessory
+			// (the usual way of extending a library service); it has no id until the accessory is numbered again
+			late := characteristic.NewBool("FA7E")
+			late.Perms = characteristic.PermsAll()
+			a.Services[len(a.Services)-1].AddCharacteristic(late.Characteristic)
+		}
 		if k%2 == 0 {
 			// the application looks at the object before it hands it to the transport (a debug log, a config dump): encoding an
 			// accessory that has no ids yet must not influence what is served later
